@@ -1,6 +1,7 @@
 (* C19 runner.  One history per line:
      TAG|STEP#STEP#...
-     STEP  = tp1,tp2:GROUP;GROUP;...        tpN: 0 = library N configured, not third party; 1 = third party; 2 = no configuration
+     STEP  = LAYER+LAYER+...:GROUP;GROUP;...   LAYER = tp1,tp2,tp3 (one configuration file; the layers are merged with the
+             model of Config::append in this order); tpN: 0 = library N defined, not third party; 1 = third party; 2 = not defined
      GROUP = lib,name,analyzed,hasprim/ENTS/UNITS
      ENTS  = id:kind:parent:rel:relto:pos ...   ('-' = none; rel = D | O | N)
      UNITS = unit,unit,...   unit = events `D<id>` `R<id>` `D-` `R-` separated by blanks; the first unit is the
@@ -91,16 +92,18 @@ let () =
           match split_on ':' st with
           | cfg :: rest ->
             let groups_s = Stdlib.String.concat ":" rest in
-            let (t1, t2) = (match split_on ',' cfg with [a; b] -> (tp_of a, tp_of b) | _ -> failwith "cfg") in
+            let layer_of l =
+              Stdlib.List.concat (Stdlib.List.mapi (fun i v -> match tp_of v with Some b -> [ (n_of_int (i + 1), b) ] | None -> []) (split_on ',' l)) in
+            let cm = Stdlib.List.fold_left (fun acc l -> config_append acc (layer_of l)) [] (split_on '+' cfg) in
             let groups = Stdlib.List.filter_map (fun g -> if g = "" then None else Some (parse_group g)) (split_on ';' groups_s) in
-            (t1, t2, groups)
+            (cm, groups)
           | [] -> failwith "step") (split_on '#' hist) in
-      let model_steps = Stdlib.List.map (fun (t1, t2, groups) ->
+      let model_steps = Stdlib.List.map (fun (cm, groups) ->
           let find l n = Stdlib.List.find_opt (fun g -> g.glib = l && g.gname = n) groups in
           let lib l = { lib_primary = (fun n -> match find l (int_of_n n) with Some g -> g.ggroup.primary | None -> None);
                         lib_secondaries = (fun n -> match find l (int_of_n n) with Some g -> g.ggroup.secondaries | None -> []) } in
-          let root = (fun l -> let l = int_of_n l in if l = 1 || l = 2 then Some (lib l) else None) in
-          let cfg = (fun l -> let l = int_of_n l in if l = 1 then t1 else if l = 2 then t2 else None) in
+          let root = (fun l -> let l = int_of_n l in if l >= 1 && l <= 3 then Some (lib l) else None) in
+          let cfg = (fun l -> cm_get cm l) in
           let analyzed = Stdlib.List.concat_map (fun g ->
               if g.ganalyzed then [ (n_of_int g.glib, n_of_int g.gname); (n_of_int g.glib, n_of_int g.gname) ] else []) groups in
           ((root, cfg), analyzed)) steps in
@@ -108,7 +111,7 @@ let () =
       let show_out out =
         let l = Stdlib.List.map (fun (p, i) -> Printf.sprintf "%d.%d" (int_of_n p) (int_of_n i)) out in
         Stdlib.String.concat " " (Stdlib.List.sort compare l) in
-      let step_strs = Stdlib.List.map2 (fun out (_, _, groups) ->
+      let step_strs = Stdlib.List.map2 (fun out (_, groups) ->
           let gs = Stdlib.List.map (fun g ->
               let wf = g.gwf && wf_events_b (group_events g.ggroup) in
               let un = Stdlib.List.map (fun e -> int_of_n (eid e)) (find_unused_declarations g.ggroup) in
